@@ -147,7 +147,9 @@ class Gen:
                         self.emit(f"sw {r.choice(src)}, {off}(sp)")
                     else:
                         d = r.choice(TEMPS)
-                        self.emit(f"lw {d}, {off}(sp)")
+                        # mostly word loads; a narrower load of a (word) slot yields part of it
+                        ld = "lw" if r.random() < 0.7 else r.choice(["lb", "lbu", "lh", "lhu"])
+                        self.emit(f"{ld} {d}, {off}(sp)")
                         live.append(d)
                 elif self.data_labels:
                     d = r.choice(TEMPS)
